@@ -19,7 +19,7 @@ import numpy as np
 from . import katoms, findops
 from .katoms import Rendering, render, project, empty_K
 from .tlcrun import run_tlc, tla_string_to_json, MachineryError
-from .common import Outcome, shard_validate, seed
+from .common import time_limit, Outcome, shard_validate, seed
 
 TRACE_CFG = "SPECIFICATION Spec\nINVARIANT Report\nCHECK_DEADLOCK FALSE\n"
 MASS = {"H": 1007940, "C": 12010700, "N": 14006700, "O": 15999400, "F": 18998403, "Zn": 65380000, "Br": 79904000,
@@ -174,6 +174,7 @@ def run_replace(crystal, rq, prev=None, want_obj=False):
     with Recorder() as rec:
         try:
             with contextlib.redirect_stderr(io.StringIO()), contextlib.redirect_stdout(io.StringIO()):
+              with time_limit(180):
                 res = replace_pattern_in_structure(st, sp, rp, replace_fraction=rq["fn"] / rq["fd"], atol=atol,
                                                    replace_all=rq["replace_all"], return_num_matches=True,
                                                    ignore_atoms_should_not_be_deleted_twice=rq["ignore"], **kw)
@@ -358,6 +359,7 @@ def run_stubbed(req, vi, sd):
     with Recorder(stub=stub):
         try:
             with contextlib.redirect_stderr(io.StringIO()), contextlib.redirect_stdout(io.StringIO()):
+              with time_limit(180):
                 res = replace_pattern_in_structure(st, sp, rp, replace_fraction=req["fn"] / req["fd"], atol=0.05,
                                                    replace_all=req["replace_all"] == "yes", return_num_matches=True,
                                                    ignore_atoms_should_not_be_deleted_twice=req["ignore"] == "yes")
